@@ -4,7 +4,7 @@ Not a harness component itself (no PROPERTIES line): imported by serializer_chun
 the D18 witness.  Everything here runs the REAL `pysyncobj.serializer.Serializer`.
 
 Private attributes read (never written): `_Serializer__pid`, `__currentID`, `__transmissions`,
-`__incomingTransmissionFile`, `__inMemorySerializedData`.
+`__incomingTransmissionFile`, `__incomingSnapshot`, `__inMemorySerializedData`.
 """
 import binascii
 import hashlib
@@ -63,10 +63,14 @@ def extract(ser, fn, with_fs=True):
     st = {"pid": PIDS.get(priv(ser, "pid"), "child"), "id": priv(ser, "currentID")}
     inc = priv(ser, "incomingTransmissionFile")
     st["inc"] = inc is not None
+    snap = priv(ser, "incomingSnapshot")          # D70: a completely received, not yet installed snapshot
+    st["snapset"] = snap is not None
+    st["snap"] = None
     if fn is None:
         st["dump"] = hx(priv(ser, "inMemorySerializedData"))
         st["tmp"] = None
         st["tmp1"] = hx(inc) if inc is not None else None
+        st["snap"] = hx(snap) if snap is not None else None
     elif with_fs:
         if inc is not None:
             inc.flush()          # observation only: the model's handle is unbuffered
@@ -174,6 +178,14 @@ class RealLink(object):
             return priv(ser, "inMemorySerializedData")
         return read_file(fn)
 
+    def incoming(self, which):
+        """What deserialize(incoming=True) would read: the received snapshot if there is one, else the stored one."""
+        ser, fn = (self.S, self.fnS) if which == "S" else (self.R, self.fnR)
+        snap = priv(ser, "incomingSnapshot")
+        if snap is None:
+            return self.store(which)
+        return snap if fn is None else read_file(snap)
+
     def note_held(self):
         d = self.store("S")
         if d is not None and (not self.held or self.held[-1] != d):
@@ -241,9 +253,13 @@ class RealLink(object):
         elif e == "deliver":
             if self.chan:
                 c = self.chan.pop(0)
-                out = bool(self.R.setTransmissionData(c))
-                if out:
-                    self.completed.append(self.store("R"))
+                done = bool(self.R.setTransmissionData(c))
+                out = [done, None]
+                if done:
+                    self.completed.append(self.incoming("R"))
+                    # what SyncObj.__loadDumpFile(clearJournal=True) does next: install, reject, or raise before
+                    if ev.get("fin") is not None:
+                        out[1] = bool(self.R.finishIncoming(bool(ev["fin"])))
         elif e == "reconnect":
             self.chan = []
             if ev["c"]:
@@ -268,7 +284,8 @@ class RealLink(object):
         elif e == "sndInstall":
             d = unhx(ev["d"])
             out = [bool(self.S.setTransmissionData((d, True, False))),
-                   bool(self.S.setTransmissionData((b"", False, True)))]
+                   bool(self.S.setTransmissionData((b"", False, True))),
+                   bool(self.S.finishIncoming(True))]
         elif e == "rcvRestart":
             self.R = self.sermod.Serializer(self.fnR, self.rb, self.rf, None, None, None)
             self.chan = []
